@@ -18,3 +18,22 @@ package treasure
 // Clone: a new record object carrying the same attributes.
 //@ trusted func (Treasure).Clone(t, id) (c)
 //@   ensures c != nil && U_treasure_exp(c) == U_treasure_exp(t) && U_treasure_created(c) == U_treasure_created(t) && U_treasure_modified(c) == U_treasure_modified(t)
+
+// Expiry (property C30): a record is expired exactly when it has a non-zero expiry time that
+// lies in the past; 0 means "never expires"; the zero time.Time maps to 0.
+//@ func (*treasure).IsExpired(t) (r)
+//@   property C30
+//@   nopanic
+//@   modifies *
+//@   ensures[definition] r <==> (old(t.treasure.ExpirationTime) != 0 && old(t.treasure.ExpirationTime) < lastret("Time.UnixNano"))
+//@   ensures[never_without_expiry] old(t.treasure.ExpirationTime) == 0 ==> !r
+
+//@ func (*treasure).SetExpirationTime(t, guardID, expirationTime)
+//@   property C30
+//@   modifies t.expirationTimeChanged, t.treasure.ExpirationTime
+//@   ensures[zero_time_means_never] P_time_iszero(expirationTime) ==> t.treasure.ExpirationTime == 0
+//@   ensures[instant] !P_time_iszero(expirationTime) ==> t.treasure.ExpirationTime == U_unixnano(expirationTime)
+//@   ensures[flagged] t.expirationTimeChanged
+
+// Assumed: the read accessors of a record only read (they take the record's own RLock).
+//@ pureiface Treasure Get Is Uint32SliceGetAll Uint32SliceSize
